@@ -9,10 +9,11 @@ import json, glob, os, subprocess, sys, time
 tier = sys.argv[1] if len(sys.argv) > 1 else "quick"
 prefixes = sys.argv[2:]
 root = os.path.dirname(os.path.dirname(os.path.abspath(__file__)))
+REPO = os.environ.get("VERIF_REPO", "/repo")  # a scratch checkout may be used instead of /repo itself
 os.chdir(root)
 out_path = os.path.join(root, "seeded", "REGRESSION.json")
 results = json.load(open(out_path)) if os.path.exists(out_path) else {}
-if subprocess.run(["git", "-C", "/repo", "diff", "--quiet"]).returncode != 0:
+if subprocess.run(["git", "-C", REPO, "diff", "--quiet"]).returncode != 0:
     sys.exit("refusing: /repo has uncommitted changes")
 lost = []
 for meta_path in sorted(glob.glob("seeded/*/meta.json")):
@@ -22,12 +23,12 @@ for meta_path in sorted(glob.glob("seeded/*/meta.json")):
     meta = json.load(open(meta_path))
     checks = meta.get("checks_run_against_it") or [meta["property"]]
     patch = os.path.join(root, "seeded", sid, "patch.diff")
-    if subprocess.run(["git", "-C", "/repo", "apply", "--check", patch]).returncode != 0:
+    if subprocess.run(["git", "-C", REPO, "apply", "--check", patch]).returncode != 0:
         print(f"{sid}: patch does not apply", flush=True)
         results[sid] = {"error": "patch does not apply"}
         lost.append(sid)
         continue
-    subprocess.run(["git", "-C", "/repo", "apply", patch], check=True)
+    subprocess.run(["git", "-C", REPO, "apply", patch], check=True)
     detected, rows = [], {}
     try:
         for c in checks:
@@ -37,7 +38,7 @@ for meta_path in sorted(glob.glob("seeded/*/meta.json")):
             if p.returncode == 1 and "VIOLATION property=" in p.stdout:
                 detected.append(c)
     finally:
-        subprocess.run(["git", "-C", "/repo", "checkout", "--", "."], check=True)
+        subprocess.run(["git", "-C", REPO, "checkout", "--", "."], check=True)
     results[sid] = {"property": meta["property"], f"detected_by_{tier}": detected, "runs": rows}
     print(f"{sid}: detected by {detected} of {checks} {rows}", flush=True)
     if not detected:
